@@ -69,3 +69,7 @@ def describe(case, res):
     n = len(case["events"])
     return ["mode=%s" % case.get("mode"), "events=%s" % ("<20" if n < 20 else "<60" if n < 60 else ">=60"),
             "interleaved=%s" % (interleaved(case) > 0)]
+
+
+def panic_result(case):
+    return dict(calls=[], writes=[], stats=[0] * 6, failed=False, stats_seq=[], extra_seq=[])
